@@ -63,6 +63,11 @@ CHECKS = {
             "For every name the multiset of user identifiers on every emitted line must be exactly name[:2]+suffix (arr_ for arrays), in the pre-initialisation prologue too; user identifiers never match generated ones. Since the map is checked to be the identity on (first two characters, suffix, kind) for every name, the pair property follows.",
             "Trusted: vf/b09/syntax.py for reading identifiers. Names starting with DO/PI/SQ are the C07 reserved-word finding and are only counted here.",
             "DESIGN.md §2 C09"),
+    "C10": ("model_checking",
+            "exhaustive enumeration of (syntactic position x variable kind x DIM form x string-size option x size map x initialize_vars) programs, one variable under test each, plus same-name scalar/array programs; declarations and uses read from the parsed output",
+            "For every enumerated program: each array declared exactly once before first use with bound+1 (11 per used dimension when never DIMensioned), no identifier declared twice, and with a non-32 default every string identifier (temporaries included) carries STRING[n] with the configured/default n.",
+            "Trusted: vf/b09/syntax.py. Re-DIMensioning programs (?DD ERROR in Color BASIC) are outside the fragment.",
+            "DESIGN.md §2 C10"),
 }
 
 PENDING_REASON = "check not built yet in this revision (work in progress; will be claimed when its explorer exists)"
